@@ -1,13 +1,14 @@
 INIT Init
 NEXT Next
 CONSTANTS
-  NSpecies = 4
-  Coefs = {1, 2, 10}
+  NSpecies = 3
+  Coefs <- CoefsQ
   MaxReac = 2
   MaxProd = 2
   Kinds = {"Reaction", "Equilibrium"}
 INVARIANT NamesInOrder
 INVARIANT NoUnitCoef
+INVARIANT AllNonUnitShown
 INVARIANT OneArrow
 INVARIANT Emit
 CHECK_DEADLOCK FALSE
